@@ -95,8 +95,14 @@ def strategy(tier):
         # ('sdisc_overlap': the server ends every namespace and the transport
         # is lost while the application's asynchronous disconnect handlers
         # are still running)
+        # ('lose_app_disc': at the loss the application decides not to come
+        # back: its disconnect handler calls disconnect(), or - asyncio -
+        # another task of the application does while that handler is
+        # suspended)
         'cause': st.sampled_from(['lose', 'lose', 'lose', 'disconnect',
-                                  'sdisc_last', 'close', 'sdisc_overlap']),
+                                  'sdisc_last', 'close', 'sdisc_overlap',
+                                  'lose_app_disc']),
+        'app_disc_by': st.sampled_from(['handler', 'task']),
         # ('kicked': the server accepts the returning client and ends one
         # of its namespaces right behind the acceptance)
         'outcomes': st.lists(st.sampled_from(['fail', 'fail', 'refuse',
@@ -169,9 +175,14 @@ def _run(case, h):
 
     slow_disc = [False]
 
+    app_disc = {'on': False, 'done': False}
+
     def mk_disconnect(n):
         def on_disconnect(*a):
             log.append(('disconnect', n) + a)
+            if app_disc['on'] and not app_disc['done'] and not aio:
+                app_disc['done'] = True
+                sio.disconnect()
             if dhf_state['on'] and case.get('dhf') is not None and \
                     n == nss[case['dhf'] % len(nss)]:
                 dhf_state['hit'] = True
@@ -181,6 +192,10 @@ def _run(case, h):
 
         async def a_on_disconnect(*a):
             on_disconnect(*a)
+            if app_disc['on'] and not app_disc['done'] and \
+                    case.get('app_disc_by') != 'task':
+                app_disc['done'] = True
+                await sio.disconnect()
             if slow_disc[0]:
                 for _ in range(4):
                     await asyncio.sleep(0)
@@ -547,6 +562,33 @@ def _run(case, h):
         if dhf_state['hit']:
             labels['disconnect_handler_fault_at_the_loss'] = True
             labels['nontrivial'] = True
+    elif cause == 'lose_app_disc':
+        app_disc['on'] = True
+        if aio and case.get('app_disc_by') == 'task':
+            slow_disc[0] = True
+
+            async def tail():
+                await h.eio._trigger_event('disconnect',
+                                           h.reason.TRANSPORT_ERROR,
+                                           run_async=False)
+                await h.eio._reset()
+            lt = h.loop.spawn(tail())
+            h.loop.step()
+            h.loop.step()
+            if not lt.done():
+                app_disc['done'] = True
+                h.loop.spawn(sio.disconnect())
+                labels['disconnect_while_loss_handler_suspended'] = True
+            h.loop.run_until_idle()
+            slow_disc[0] = False
+        else:
+            h.lose()
+        app_disc['on'] = False
+        h.swallowed[:] = []
+        if not app_disc['done']:
+            cause = 'lose'      # (nothing was connected: a plain loss)
+        else:
+            labels['application_disconnects_at_the_loss'] = True
     elif cause == 'sdisc_overlap' and aio:
         from engineio import packet as ep
         slow_disc[0] = True
